@@ -671,6 +671,8 @@ def absent_value_effect(ctx, edit, filt, stores, field, value):
 def cli_table(ctx, edit=None, filt=None, stores=()):
     cmd = ctx.prog.func("torrentfile.commands:edit")
     parsers = Parsers(ctx)
+    for bad in parsers.unreadable:
+        ctx.undecided("C07.4", parsers.fn, "an option is defined inside a loop whose table of values could not be read", bad)
     p = parsers.by_command("edit")
     rows = {r.dest: r for r in p["rows"]}
     # the request literal
